@@ -28,7 +28,7 @@ def dispatch : String → Option (String → String)
   | "C13" => some Cfg.runLine
   | "C14" => some EnvOrder.runLine
   | "C15" => some Panics.runLine
-  | "C16" => some (fun l => if l.startsWith "(utf8" || l.startsWith "(mask2" then Utf8.runLine l else if l.startsWith "(str8" then JsStr.runLine l else Slices.runLine l)
+  | "C16" => some (fun l => if l.startsWith "(utf8" || l.startsWith "(mask2" then Utf8.runLine l else if l.startsWith "(str8" || l.startsWith "(str16" then JsStr.runLine l else Slices.runLine l)
   | _ => none
 
 def main (args : List String) : IO UInt32 := do
